@@ -92,7 +92,7 @@ def gen_ruleset(rng, max_rules=6, max_ns=3, depth=2, allow_for=True, cond_kinds=
         earlier = [r for r in rules if r["ns"] == ns]
         earlier_ord = [r for r in earlier if not r["global"]]
         earlier_glob = [r for r in earlier if r["global"]]
-        g = cond.Gen(rng, max(1, len(strings)), 10, (), max_depth=depth, allow_for=allow_for)
+        g = cond.Gen(rng, max(1, len(strings)), 10, (), max_depth=depth, allow_for=allow_for, of_at_in=True)
 
         def leaf():
             c = rng.below(12)
